@@ -17,7 +17,8 @@ class C04(Check):
         kinds = list(gen.RESOURCE_CONSTRAINT_KINDS)
         if rng.random() < 0.5:
             kinds = rng.sample(kinds, 3)
-        return gen.profile(
+        focus = gen.FOCUS["interrupted"] if rng.random() < 0.1 else {}
+        return gen.profile(**focus) if focus else gen.profile(
             n_tasks=(2, 6 if big else 4), p_optional=0.2, p_zero=0.08, p_variable=0.35, n_workers=(1, 3), p_cumulative=0.25, p_select=0.6,
             p_assign=0.95, p_dynamic=0.08, p_delayed=0.08, p_work=0.1, p_horizon=0.7, slack=(2, 9),
             constraints=kinds + ["TaskStartAt", "TaskPrecedence"], n_constraints=(1, 4 if big else 3),
